@@ -163,7 +163,9 @@ def run(ctx):
         ok = len(wr) == 1 and len(endp) == 1 and wr[0][0] < endp[0] and len(clr) == 1 and clr[0][1] == "clear" and clr[0][0] > wr[0][0]
         if ok:
             a = p.arg(wr[0][0], 1)
-            ok = T.is_field(T.peel(a), "data") and (T.find(a, lambda x: isinstance(x, tuple) and x[0] == "agg" and (x[2] or "").endswith("RangeFull")) is not None or T.peel(a) == a)
+            # the whole buffer: `&self.data[..]`, `&self.data` (deref coercion), `self.data.as_slice()`; no partial range
+            partial = T.find(a, lambda x: isinstance(x, tuple) and x[0] == "agg" and re.search(r"ops::Range(From|To|Inclusive|ToInclusive)?$", x[2] or "") is not None)
+            ok = T.is_field(T.peel(a), "data") and partial is None
         ctx.ob("C07.row-prefix", ok, "end_row (binary): writes %d, packet ends %d, buffer resets %s (need write_all(data[..]), one packet end, data.clear())" % (len(wr), len(endp), [c[1] for c in clr]),
                fn=er.path, construct="row-end", where=er.where(p.blocks[-1]), sample={"rule": "row-prefix/end", "resets": [c[1] for c in clr]})
     ctx.floor("C07.row-prefix", "binary Ok paths of end_row", n, 1)
